@@ -551,7 +551,18 @@ func c16Call(req string) string {
 			buf.ReleaseBytes(bb)
 		}
 		err := ins.CopyTo(a.x, d.x, buf)
-		return "err=" + c16Err(err) + ";dst=" + c16Print(d.x, true, []c16Arg{a, d}) + ";share=" + f01(c16Shares(d.x, a.x))
+		out := "err=" + c16Err(err) + ";dst=" + c16Print(d.x, true, []c16Arg{a, d})
+		share := c16Shares(d.x, a.x)
+		// second generation: the copy just handed out lives in the buffer; copied again through the SAME buffer (no Reset in
+		// between) it must again yield a value of its own (C16_copyto_fresh holds for every buffer state, so the model's
+		// share=0 covers both generations; a buffer that recognises its own bytes and hands them back would pass the first)
+		if err == nil && d.x != nil && reflect.TypeOf(d.x).Kind() == reflect.Ptr && !reflect.ValueOf(d.x).IsNil() {
+			d2 := reflect.New(reflect.TypeOf(d.x).Elem()).Interface()
+			if ins.CopyTo(d.x, d2, buf) == nil {
+				share = share || c16Shares(d2, d.x) || c16Shares(d2, a.x)
+			}
+		}
+		return out + ";share=" + f01(share)
 	case "len", "cap":
 		a := c16Build(f[1])
 		n := -7
